@@ -128,7 +128,7 @@ def gen_history(rng, mode):
         guard += 1
         r = rng.random()
         if mode == "wide":
-            parent = groups[0] if rng.random() < 0.8 or len(groups) < 2 else groups[1]
+            parent = groups[0] if rng.random() < 0.93 or len(groups) < 2 else groups[1]
         elif mode == "deep":
             parent = groups[-1] if rng.random() < 0.6 and groups[-1].count("/") < 4 else rng.choice(groups)
         else:
